@@ -403,3 +403,16 @@ def r5(ctx, R):
     R.fn(w)
     lv = sorted({ast.unparse(n) for n in ast.walk(fn) if isinstance(n, ast.Subscript) and ast.unparse(n.value).endswith('.levels')})
     R.check(lv == ['S.levels[0]'], 'CheckConvergence.check_convergence :: levels consulted', w, ['S.levels[0]'], lv)
+
+
+@rule('C01', 'C01.R6', 'fixed-point equation as a whole: sweep, integrate and end point of every QDelta sweeper equal the formula-derived reference signature (shared with C02)', floor=20)
+def r6(ctx, R):
+    """The fixed point of the sweep is u0 + dt*Q*F(U) + tau = U only if EVERY term of the sweep is the one the formula
+    names (u0 present once, INT from integrate(), f re-evaluated from the new u at the node time, ...).  The clause-wise
+    rules R1-R3 name the cancellation / tau / end-point clauses; this rule closes the rest with the C02 signatures."""
+    from . import c02
+    spec = c02._spec()
+    fams = sw.QD_SERIAL + sw.QD_MPI
+    for meth in ('integrate', 'update_nodes', 'compute_end_point'):
+        for rel, cn in c02._impls(ctx.repo, fams, meth):
+            c02._check_sig(R, ctx.repo, rel, cn, meth, spec)
